@@ -330,6 +330,19 @@ pub fn field_variants(t: &mut Tape, plan: &XzPlan) -> Vec<(XzPlan, &'static str,
                 }
             }
         }
+        // the LZMA2 filter's size-of-properties says 2..4 (the extra "properties" are
+        // what has to be zero padding, zero or not)
+        for k in [2u64, 3, 4] {
+            for nz in [false, true] {
+                let mut p = plan.clone();
+                p.blocks[bi].ov_props_size = Some(k);
+                p.blocks[bi].extra_pad4 = p.blocks[bi].extra_pad4.max(1);
+                if nz {
+                    p.blocks[bi].ov_hpad = Some((0, 1 + t.below(255) as u8));
+                }
+                v.push((p, "block.filter_props_size", format!("block {} LZMA2 size of properties {} ({} padding byte after the real one)", bi, k, if nz { "non-zero" } else { "zero" })));
+            }
+        }
         // size byte (CRC recomputed over the bytes as written)
         let sb = built.bytes[hdr_field.off];
         for x in [sb.wrapping_add(1), sb.wrapping_sub(1), 0xFF, 1] {
@@ -514,7 +527,7 @@ impl Property for C06 {
         "fault_enumeration"
     }
     fn rule(&self) -> &'static str {
-        "per seeded valid .xz file (0-3 blocks, check None/CRC32/CRC64, optional fields, paddings): (a) one bit flipped — every bit position in the thorough tier, a sample in quick; (b) truncation at every (sampled) offset; (c) every integrity/size field (magics, stream flags incl. the reserved first byte on one side only, the 4 kinds of CRC32, backward size, index count and records (also two records wrong together with both column sums preserved; also every size/count integer spelt over-long in ten bytes whose first nine carry the true value), declared block sizes, size byte, all paddings incl. the block header's (one byte non-zero; several at once: equal, cancelling under xor or sum, all 0xFF), check field) replaced by values from {0, 1, true±1, true+4, true+2^30·k, true+2^32, 2^31, 2^32-1, 2^63-1, random} with every enclosing CRC recomputed. One evaluation = one mutated file through xz_decompress (reader rotating over: slice, 1-byte refills, fixed k, irregular refills); Ok obliges (1) the field-exact judge to confirm every listed field against the delivered bytes and (2) for CRC32/CRC64 files delivered == original; all cases distinct by scenario hash and non-trivial"
+        "per seeded valid .xz file (0-3 blocks, check None/CRC32/CRC64, optional fields, paddings): (a) one bit flipped — every bit position in the thorough tier, a sample in quick; (b) truncation at every (sampled) offset; (c) every integrity/size field (magics, stream flags incl. the reserved first byte on one side only, the 4 kinds of CRC32, backward size, index count and records (also two records wrong together with both column sums preserved; also every size/count integer spelt over-long in ten bytes whose first nine carry the true value), declared block sizes, size byte, the LZMA2 filter's size-of-properties (2-4), all paddings incl. the block header's (one byte non-zero; several at once: equal, cancelling under xor or sum, all 0xFF), check field) replaced by values from {0, 1, true±1, true+4, true+2^30·k, true+2^32, 2^31, 2^32-1, 2^63-1, random} with every enclosing CRC recomputed. One evaluation = one mutated file through xz_decompress (reader rotating over: slice, 1-byte refills, fixed k, irregular refills); Ok obliges (1) the field-exact judge to confirm every listed field against the delivered bytes and (2) for CRC32/CRC64 files delivered == original; all cases distinct by scenario hash and non-trivial"
     }
     fn runs(&self, tier: Tier) -> u64 {
         match tier {
@@ -613,7 +626,7 @@ impl Property for C06 {
                 "vli.nonminimal" => "probe.integer_not_in_shortest_form",
                 "index.count" | "index.unpadded" | "index.uncompressed" | "index.pad" | "index.crc32" => "probe.substituted_index_field",
                 "block.csize" | "block.usize" | "block.size_byte" => "probe.substituted_declared_block_size",
-                "block.pad" | "block.header_pad" => "probe.substituted_padding",
+                "block.pad" | "block.header_pad" | "block.filter_props_size" => "probe.substituted_padding",
                 "block.check" => "probe.substituted_check_field",
                 "header.magic" | "footer.magic" => "probe.substituted_magic",
                 "footer.flags" | "header.flags" => "probe.header_footer_flags_disagree",
